@@ -97,6 +97,32 @@ def generate(tier, rng):
         cases.append({"op": "zchist", "w": w, "rate": rate, "s": s, "steps": steps, "scale": ["ticks", K]})
     for _ in range(150 if tier == "quick" else 4000):
         cases.append({"op": "tgzc", "seed": rng.randint(0, 10 ** 9), "scale": ["ticks", K], "s": []})
+    # tgBoundariesToZeroCrossings on a tick grid: the whole textgrid that comes back, against the model
+    for _ in range(120 if tier == "quick" else 3000):
+        rate = rng.choice([8000, 16000])
+        n = rng.randint(150, 400)
+        kind = rng.choice(["sine", "sine", "sparse", "random"])
+        if kind == "sine":
+            per = rng.choice([37, 50, 80])
+            s = [round(1000 * math.sin(2 * math.pi * i / per)) for i in range(n)]
+        elif kind == "random":
+            s = [rng.randint(-50, 50) for _ in range(n)]
+        else:
+            s = [rng.randint(1, 50) for _ in range(n)]
+            for _k in range(rng.randint(2, 6)):
+                s[rng.randrange(n)] = 0
+        tiers = []
+        for k in range(rng.randint(1, 3)):
+            if rng.random() < 0.6:
+                cuts = sorted(rng.sample(range(0, n + 1), 2 * rng.randint(0, 3)))
+                ents = [[cuts[i] * K, cuts[i + 1] * K, "l%d" % i] for i in range(0, len(cuts), 2) if cuts[i + 1] - cuts[i] > 40]
+                tiers.append({"kind": "I", "name": "i%d" % k, "entries": ents, "min": 0, "max": n * K})
+            else:
+                pts = sorted(rng.sample(range(0, n + 1), rng.randint(0, 4)))
+                ents = [[min(p * K + rng.choice([0, 0, 1]), n * K), "m%d" % j] for j, p in enumerate(pts)]   # on a sample or a quarter past it
+                tiers.append({"kind": "P", "name": "p%d" % k, "entries": ents, "min": 0, "max": n * K})
+        cases.append({"op": "tgzc2", "rate": rate, "s": s, "tiers": tiers, "adjP": rng.random() < 0.85, "adjI": rng.random() < 0.85,
+                      "scale": ["ticks", K]})
     for _ in range(150 if tier == "quick" else 4000):
         cases.append({"op": "splice", "seed": rng.randint(0, 10 ** 9), "scale": ["ticks", K], "s": []})
     return cases
@@ -278,6 +304,58 @@ def _run_splice(case):
     return probs[:5]
 
 
+def _sgn(x):
+    return (x > 0) - (x < 0)
+
+
+def _is_crossing(s, j):
+    if not 0 <= j < len(s):
+        return False
+    return s[j] == 0 or (j + 1 < len(s) and _sgn(s[j]) != _sgn(s[j + 1])) or (j >= 1 and _sgn(s[j - 1]) != _sgn(s[j]))
+
+
+def _has_tie(case):
+    """some time of the textgrid has crossings at equal distance on both sides (within the reach of the search)"""
+    s = case["s"]
+    cross = [j * K for j in range(len(s)) if _is_crossing(s, j)]
+    times = set(x for t in case["tiers"] for e in t["entries"] for x in e[:-1])
+    for t in times:
+        left = [c for c in cross if c < t]
+        right = [c for c in cross if c > t]
+        if left and right and t - max(left) == min(right) - t:
+            return True
+    return False
+
+
+def _run_tgzc2(case):
+    from praatio import praatio_scripts
+    from praatio.data_classes.textgrid import Textgrid
+    from praatio.data_classes.interval_tier import IntervalTier
+    from praatio.data_classes.point_tier import PointTier
+    rate, s = case["rate"], case["s"]
+    f = lambda tk: tk / (K * rate)  # noqa
+    wav = _wav(s, 2, rate)
+    tg = Textgrid(0.0, f(len(s) * K))
+    for t in case["tiers"]:
+        if t["kind"] == "I":
+            tg.addTier(IntervalTier(t["name"], [(f(a), f(b), lab) for a, b, lab in t["entries"]], f(t["min"]), f(t["max"])))
+        else:
+            tg.addTier(PointTier(t["name"], [(f(a), lab) for a, lab in t["entries"]], f(t["min"]), f(t["max"])))
+    out = _with_alarm(lambda: praatio_scripts.tgBoundariesToZeroCrossings(tg, wav, case["adjP"], case["adjI"]))
+
+    def tk(x):
+        v = _tick(x, rate)
+        if v is None:
+            raise core.OffGrid("time %r is not on the tick grid" % x)
+        return v
+    tiers = []
+    for t in out.tiers:
+        isP = type(t).__name__ == "PointTier"
+        ents = [[tk(e[0]), e[1]] for e in t.entries] if isP else [[tk(e[0]), tk(e[1]), e[2]] for e in t.entries]
+        tiers.append({"kind": "P" if isP else "I", "name": t.name, "entries": ents, "min": tk(t.minTimestamp), "max": tk(t.maxTimestamp)})
+    return {"tiers": tiers, "min": tk(out.minTimestamp), "max": tk(out.maxTimestamp)}
+
+
 def run(case):
     from praatio import audio
     op = case["op"]
@@ -285,6 +363,8 @@ def run(case):
         return core.run_guarded(lambda: _run_tgzc(case))
     if op == "splice":
         return core.run_guarded(lambda: _run_splice(case))
+    if op == "tgzc2":
+        return core.run_guarded(lambda: _run_tgzc2(case))
     if op == "zchist":
         def hh():
             wav = _wav(case["s"], case["w"], case["rate"])
@@ -362,6 +442,18 @@ def emit_multi(case, r):
 
 
 def emit(case, r):
+    if case["op"] == "tgzc2":
+        if "ok" not in r and "err" not in r:
+            return None
+        from .. import tgops
+        st = round(0.002 * case["rate"] * K)
+        g = tgops.ctg({"tiers": case["tiers"], "min": 0, "max": len(case["s"]) * K})
+        if "ok" in r:
+            v = r["ok"]
+            out = "(Ok %s)" % tgops.ctg({"tiers": v["tiers"], "min": v["min"], "max": v["max"]})
+        else:
+            out = "(Err %s)" % r["err"]
+        return "TgZcC %d %s %s %s %s %s %s" % (K, c16.czl(case["s"]), core.cz(st), core.cbool(case["adjP"]), core.cbool(case["adjI"]), g, out)
     if case["op"] != "zc" or "timeout" in r:
         return None
     st = case["st"]
@@ -389,6 +481,10 @@ def py_checks(case, r):
         if "ok" not in r:
             return ["%s harness failed: %s" % (case["op"], r.get("exc", r))]
         return r["ok"]
+    if case["op"] == "tgzc2":
+        if "offgrid" in r:
+            return ["tgBoundariesToZeroCrossings: %s" % r["offgrid"]]
+        return []
     if "timeout" in r:
         return ["findNearestZeroCrossing did not return within 3 s (target %r ticks, step %r ticks, %d samples)" % (case["t"], case["st"], len(case["s"]))]
     return []
